@@ -957,7 +957,9 @@ def trace_commands(output):
         mm = re.search(r'm \|-> <<([-\d, ]+)>>', t)
         extra = ""
         if op == "Astro":
-            extra = "(%s m=<<%s>> %sx%s)" % (kind, mm.group(1) if mm else "", re.search(r'\bw \|-> (\d+)', t).group(1), re.search(r'\bh \|-> (\d+)', t).group(1))
+            cv = re.search(r'cv \|-> <<<<(-?\d+), (\d+)>>, <<(-?\d+), (\d+)>>>>', t)
+            extra = "(%s m=<<%s>> CRVAL=(%s/%s, %s/%s) %sx%s)" % ((kind, mm.group(1) if mm else "") + (cv.groups() if cv else ("?",) * 4)
+                                                              + (re.search(r'\bw \|-> (\d+)', t).group(1), re.search(r'\bh \|-> (\d+)', t).group(1)))
         elif op in ("Prepare", "Thumb"):
             ws = re.findall(r'\bw \|-> (\d+)', t)
             hs = re.findall(r'\bh \|-> (\d+)', t)
@@ -982,7 +984,7 @@ def run(ctx):
                 "under the parity flip; every state TLC emits is replayed.  histories: every command sequence up to the bound in TLC; crafted + seeded "
                 "random scripts and TLC walks replayed, everything compared after every command.  distinct = case / command history")
     t0 = time.time()
-    bound = 3 if quick else 4
+    bound = 3 if quick else 5
     script_len = 6 if quick else 8
     n_random = 30 if quick else 300
     n_walks = 20 if quick else 200
